@@ -175,6 +175,11 @@ func MakeOAuth2PID(provider, uid string) string {
 // ParseOAuth2PID returns the uid and provider for a given OAuth2 pid
 func ParseOAuth2PID(pid string) (provider, uid string, err error) {
 	splits := strings.Split(pid, ";;")
+	if len(splits) > 3 {
+		// only the provider is guaranteed to be free of the separator: a uid
+		// handed out by the provider may contain it
+		splits = []string{splits[0], splits[1], strings.Join(splits[2:], ";;")}
+	}
 	if len(splits) != 3 {
 		return "", "", errors.Errorf("failed to parse oauth2 pid, too many segments: %s", pid)
 	}
